@@ -9,8 +9,36 @@ from . import linecov
 from .core import Ctx, case_sig, jsonable, run_one
 
 
+def arm_emptysan(np):
+    """EmptySan: np.empty / np.empty_like hand out poisoned storage (NaN / sentinel) instead of stale memory."""
+    orig_empty, orig_like = np.empty, np.empty_like
+
+    def poison(a):
+        k = a.dtype.kind
+        if k in "fc":
+            a.fill(np.nan)
+        elif k in "iu":
+            a.fill(np.iinfo(a.dtype).min + 11 if k == "i" else np.iinfo(a.dtype).max - 11)
+        elif k == "b":
+            a.fill(True)
+        return a
+
+    def empty(*a, **k):
+        return poison(orig_empty(*a, **k))
+
+    def empty_like(*a, **k):
+        return poison(orig_like(*a, **k))
+
+    np.empty, np.empty_like = empty, empty_like
+
+
 def run_shard(prop, tier, seed, shard, nshards):
     np, ttb = load()
+    import os
+
+    emptysan = bool(os.environ.get("PVM_EMPTYSAN")) or tier == "thorough"
+    if emptysan:
+        arm_emptysan(np)
     mod = importlib.import_module(f"pvm.props.{prop.lower()}")
     ctx = Ctx(prop, mutsan=getattr(mod, "MUTSAN", "off"))
     if hasattr(mod, "pvm_setup"):
@@ -40,7 +68,7 @@ def run_shard(prop, tier, seed, shard, nshards):
         "cases": ncases, "sigs": sorted(sigs), "evals": ctx.evals,
         "ops": dict(ctx.ops), "branches": dict(ctx.branches), "workloads": per_w,
         "violations": ctx.violations, "nviol": ctx.nviol, "samples": samples,
-        "cov": linecov.report(), "wall": time.time() - t0, "passes": dict(ctx.passes),
+        "cov": linecov.report(), "wall": time.time() - t0, "emptysan": emptysan, "passes": dict(ctx.passes),
     }
 
 
